@@ -56,6 +56,26 @@ AddVs 6
 @QHOV 0
 @QVOH 0 1
 @QTVI 0 1""",
+    # the witnesses of C15_tet_shape_invariant_unconditional_refuted (Props/Properties_C15_C16_full.v): two tets on the SAME
+    # halfface 0 (the second added without topology check).  OUT OF CONTRACT (C01's quantifier "no halfface is used by two live
+    # cells" is inherited): run for the lock step (model and library agree on the three-halfface survivor), not judged by the
+    # shape oracle (harness/run_tet.cc taints the history as soon as a halfface is in two live cells)
+    "tet-shared-halfface-immediate": """Mesh tet
+AddVs 5
+@TAddCellV 1 0 1 2 3
+@TAddCellV 0 0 1 2 4
+EnFast 0
+EnDef 0
+@DelF 0
+QTetAll""",
+    "tet-shared-halfface-gc": """Mesh tet
+AddVs 5
+@TAddCellV 1 0 1 2 3
+@TAddCellV 0 0 1 2 4
+EnFast 0
+@DelF 0
+GC
+QTetAll""",
     # every valence guard from below and from above (accepted only at exactly 3 halfedges / vertices, 4 halffaces on
     # triangles), unchecked and checked, then the valid ones
     "tet-rejected-adds": """Mesh tet
@@ -151,6 +171,40 @@ AddVs 8
 @AddFV 5 4 0 6
 @AddC 1 0 2 4 6 8 10
 QHexAll""",
+    # regressions of the fix "checked hex add_cell must reject cells without eight distinct vertices" (e0de5bf; Examples
+    # C16_pinched_cell_rejected_*, C16_two_components_rejected): both must be REJECTED with the mesh unchanged; before the fix
+    # the library accepted them (7 resp. 10 distinct vertices) - the oracle "accepted with topology check on N distinct
+    # vertices" of harness/run_hex.cc reports that, and the lock step diverges from the model
+    "hex-pinched-rejected": """Mesh hex
+AddVs 8
+@HAddCellV 1 0 1 2 3 4 5 0 7
+@AddFV 3 2 1 0
+@AddFV 7 0 5 4
+@AddFV 1 2 0 7
+@AddFV 4 5 3 0
+@AddFV 1 7 4 0
+@AddFV 2 3 5 0
+@AddC 1 0 2 4 6 8 10
+QHexAll""",
+    "hex-two-components-rejected": """Mesh hex
+AddVs 10
+@AddFV 0 1 2 3
+@AddFV 2 1 0 4
+@AddFV 3 2 4 5
+@AddFV 6 7 8 9
+@AddFV 0 3 5 4
+@AddFV 9 8 7 6
+@AddC 1 0 2 4 6 8 10
+QHexAll""",
+    # the witness of C16_hex_shape_invariant_unconditional_refuted: two cubes on the same halfface (out of contract, lock step
+    # only: harness/run_hex.cc taints the history as soon as a halfface is in two live cells)
+    "hex-shared-halfface-immediate": """Mesh hex
+AddVs 12
+@HAddCellV 1 0 1 2 3 4 5 6 7
+@HAddCellV 0 0 1 2 3 8 9 10 11
+EnFast 0
+EnDef 0
+@DelF 0""",
     "hex-rejected-adds": """Mesh hex
 AddVs 10
 @AddE 0 1 0
@@ -374,6 +428,8 @@ C15_OPS = {"TAddCellV", "TAddCell4", "THalfEdge", "THalfFaceV", "THalfFace", "TC
 def check_C15(ctx):
     regen_leaf(ctx, "tetlabels"); regen_leaf(ctx, "hexorient")
     fw.coq_prove(ctx, "Props/Properties_C15.v")
+    import checks
+    checks.also_prove_file(ctx, "Props/Properties_C15_C16_full.v")
     build_models(ctx)
     r = Runner(ctx, "C15", "run_tet", TET_CORPUS, C15_OPS)
     if r.ok():
@@ -400,10 +456,11 @@ def check_C15(ctx):
         "+ surviving handle when the link condition holds.  distinct_nontrivial = distinct scripts (text hash) that executed with "
         "Ok at least one tet construction / collapse / deletion / query operation on a mesh that already has a cell")
     ctx.assumptions += [
-        "tet_shape is proved invariant for additions in every form (accepted or rejected), every deletion / garbage collection / "
-        "collapse in deferred or fast mode, index swaps, mode switches, clear and property operations; physical removal in SLOW "
-        "immediate mode (keeps the lengths only by the kernel's C02 closure property) and set_face / set_cell are outside the "
-        "theorem and covered by lock step + the impl-side valence scan only",
+        "tet_shape: Props/Properties_C15.v proves it for every history without slow physical removal (_partial); "
+        "Props/Properties_C15_C16_full.v for ALL FOUR deletion modes incl. collapse_edge, where a slow physical removal step carries the "
+        "hypothesis of the kernel's C02 / C04 theorems (shift_inv2 / gc_ready, decidable checkers); the unconditional statement is "
+        "refuted (a halfface used by two live cells - out of C01's contract; corpus scripts tet-shared-halfface-*, lock step only); "
+        "set_face / set_cell stay outside",
         "four distinct vertices: proved for every cell accepted by the topology-checked add_cell(halffaces) "
         "(C15_checked_add_cell_four_distinct_vertices, after the fix 50db8ef; the former counterexample 'two pillows' is a corpus "
         "replay and an Example); as an invariant of all additions it stays refuted for the UNCHECKED add_cell "
@@ -411,11 +468,15 @@ def check_C15(ctx):
         "property values across collapse_edge: known finding collapse-props-parity (C15_collapse_props_refuted); proved: sizes in "
         "every mode, vertex/mesh arrays untouched in deferred mode; the rest is judged by the token oracle (which reports exactly the "
         "once-per-tet swap outcome as KNOWN and every other deviation as a violation)",
-        "collapse_edge: shape proved in deferred and in immediate fast mode, returned handle in deferred mode; the cell-set "
-        "characterisation, the returned handle in the immediate modes and the slow immediate mode are carried by the "
-        "correspondence and the brute-force oracle (C15_collapse_partial, C15_collapse_immediate_fast_partial)",
-        "TetTopology: label algebra decided over the whole label domains on the regenerated functions; the constructor is "
-        "decided on concrete glued tets and checked in lock step + by the name-based oracle, not proved for every mesh",
+        "collapse_edge: Properties_C15_C16_full.v proves the cell-set characterisation in deferred mode (stored definitions and "
+        "get_cell_vertices) under collapse_ready (kernel invariant bu_inv2, triangles = closed loops of live halfedges, rebuilt tets "
+        "simplicial at the edge; decidable checker), the untouched part (through get_cell_vertices under fbu_ok of the result = the link "
+        "condition; refuted without), and the immediate modes as 'deferred collapse + collection' through C04 (slow: logical mesh and "
+        "returned handle = rank of b; fast: bijection) with gc_ready of the deferred result as hypothesis; that the result satisfies the "
+        "kernel invariant again is computed on examples and checked by lock step + the brute-force oracle",
+        "TetTopology: label algebra decided over the whole label domains on the regenerated functions; the constructor (all five "
+        "forms) is proved for every cell satisfying tet_cell_ok_b (tet_wf without the cache clause + closed loops + halfedge-level "
+        "closure; both additions refuted as necessary) in Properties_C15_C16_full.v",
     ]
     ctx.cov["level_note"] = "partial: see assumptions (theorems named _partial / _refuted in Props/Properties_C15.v)"
 
@@ -434,6 +495,8 @@ def all_perm_scripts(r, seed, variants):
 def check_C16(ctx):
     regen_leaf(ctx, "hexorient"); regen_leaf(ctx, "tetlabels")
     fw.coq_prove(ctx, "Props/Properties_C16.v")
+    import checks
+    checks.also_prove_file(ctx, "Props/Properties_C15_C16_full.v")
     build_models(ctx)
     r = Runner(ctx, "C16", "run_hex", HEX_CORPUS, C16_OPS)
     if r.ok():
@@ -463,15 +526,19 @@ def check_C16(ctx):
         "distinct_nontrivial = distinct scripts that executed with Ok at least one hex construction / deletion / query on a mesh "
         "that already has a cell")
     ctx.assumptions += [
-        "hex_shape is proved invariant for the same class of histories as C15 (everything except physical removal in slow "
-        "immediate mode and set_face / set_cell, which rest on the kernel's C02 invariants + lock step + valence scan)",
-        "checked add_cell (after the fix 8e6fbe9): proved for every state and list - rejected with the mesh unchanged, or one cell "
-        "appended whose stored list passes the ordering check (first halfface's neighbours 2,4,3,5, second's 3,4,2,5) in the new "
-        "state; the clause 'halffaces 2k/2k+1 share no vertex' of the documented layout is decided for all 720 orderings of the "
-        "canonical cube and carried by lock step + the definition-based layout oracle on proper cubes otherwise; the former "
-        "counterexamples (invalid handle, non-cube closed surface) are corpus replays and Examples",
-        "hex_vertices: first four proved in general, the full cube pattern decided on the canonical cube and checked by lock step + "
-        "oracle otherwise; cells created from 8 vertices: layout decided on the canonical cube only",
+        "hex_shape: as for C15 - Properties_C16.v without slow physical removal, Properties_C15_C16_full.v for all four deletion modes "
+        "under the C02 / C04 hypotheses at the slow removal steps; unconditional statement refuted (halfface in two live cells, out of "
+        "contract; corpus hex-shared-halfface-immediate, lock step only)",
+        "checked add_cell (after the fixes 8e6fbe9 and e0de5bf): proved for every state and list - rejected with the mesh unchanged, or "
+        "one cell appended whose stored list passes cell_check and the ordering check in the new state, is duplicate-free, consists of "
+        "the given halffaces and has exactly eight distinct vertices; add_cell from eight vertices with check: eight distinct vertices "
+        "under the kernel's cache invariant; the former witnesses (pinched cell on 7 vertices, two closed components on 10) are corpus "
+        "replays (hex-pinched-rejected, hex-two-components-rejected), Examples, a generator case (hexmal) and an impl-side oracle",
+        "hex_vertices cube pattern / layout / opposite faces vertex-disjoint: proved for EVERY stored cell that passes "
+        "check_halfface_ordering under hex_cell_wf_b (closed cell with exact cache entries, faces closed loops, first two halffaces on "
+        "eight distinct vertices); each conjunct refuted as necessary; hex_cell_wf_b of a cell accepted with topology check does NOT "
+        "follow (C16_checked_add_cell_accepts_a_non_cube_on_eight_vertices_refuted: top and bottom sharing two vertices - the library "
+        "accepts the same input), on proper cubes it is carried by lock step + the definition-based layout oracle",
     ]
     ctx.cov["level_note"] = "partial: see assumptions (theorems named _partial / _refuted in Props/Properties_C16.v)"
 
